@@ -300,6 +300,31 @@ func checkC12(c CaseC12, info *Info) *Failure {
 	} else {
 		info.Class("overlapping new paths (receiver clause only)")
 	}
+	// old paths that begin with an indexed wildcard: whatever ValuesForPath yields for them is what the new key holds
+	// (the path model of C07 does not cover an index on a wildcard step, so the library's own query is the oracle here)
+	// Only where the wildcard ranges over a one-entry map (as the root of every decoded document is): otherwise the
+	// i-th value depends on map iteration order.
+	if c.FieldSep == "" && len(c.Map) == 1 {
+		for _, old := range []string{"*[0]", "*[1]", "*[0].a", "*[1].k", "*[2]", "*[1].b", "*[0].list"} {
+			vals, verr := mxj.Map(copyMap(c.Map)).ValuesForPath(old)
+			nm, nerr := mxj.Map(copyMap(c.Map)).NewMap(old + ":zz9")
+			if verr != nil || nerr != nil {
+				continue
+			}
+			got, present := nm["zz9"]
+			var want interface{}
+			switch len(vals) {
+			case 0:
+			case 1:
+				want = vals[0]
+			default:
+				want = vals
+			}
+			if present != (len(vals) > 0) || (present && canon(got) != canon(want) && !sameMultiset(asList(got), asList(want))) {
+				return failf("content-mismatch", "source %s: NewMap(%q) gives %s (present=%v), ValuesForPath(%q) yields %s", js, old+":zz9", canon(got), present, old, canon(vals))
+			}
+		}
+	}
 	// the JSON wrapper on a document whose top level is a list: NewMapJson puts it under "object", and so must the wrapper
 	if jb, jerr := mxj.Map(copyMap(c.Map)).Json(); jerr == nil && c.FieldSep == "" {
 		listDoc := append(append(append([]byte("["), jb...), ','), append(append([]byte(nil), jb...), ']')...)
@@ -325,3 +350,10 @@ func checkC12(c CaseC12, info *Info) *Failure {
 }
 
 func TestC12(t *testing.T) { runProp(t, "C12", genC12, checkC12) }
+
+func asList(v interface{}) []interface{} {
+	if l, ok := v.([]interface{}); ok {
+		return l
+	}
+	return []interface{}{v}
+}
